@@ -266,3 +266,74 @@ def write_ndjson(path, rows):
         for r in rows:
             f.write(json.dumps(r, separators=(',', ':')))
             f.write('\n')
+
+
+def gen_graph_paths(ck, module, cfg, want_vars, step_fn, mode, seed, limit=None, timeout=900):
+    """Run TLC with a dot dump and derive replay paths covering every state ('nodes') or
+    every transition ('edges') of the state graph.  step_fn(node_state_dict) -> step dict."""
+    import random
+    from . import graph
+    wd = os.path.join(ck.scratch, 'gen-' + cfg)
+    r = tlc(module, cfg, wd, extra=['-dump', 'dot,actionlabels', 'g.dot'], timeout=timeout)
+    if r.violated:
+        return r, None, None
+    t0 = time.time()
+    g = graph.load_dot(os.path.join(wd, 'g.dot'), want_vars)
+    os.remove(os.path.join(wd, 'g.dot'))
+    rng = random.Random(seed)
+    if mode == 'edges':
+        paths = graph.edge_cover_paths(g, rng=rng)
+    else:
+        paths = graph.node_cover_paths(g, extend_to_terminal=True, rng=rng)
+    total = len(paths)
+    if limit and len(paths) > limit:
+        paths = graph.sample(paths, limit, seed)
+    rows = [{'id': k, 'steps': [step_fn(g.nodes[n]) for n in p]} for k, p in enumerate(paths)]
+    log('[gen] %s/%s: %d nodes %d edges -> %d paths (%d used) in %.1fs' % (
+        module, cfg, len(g.nodes), g.nedges, total, len(rows), time.time() - t0))
+    return r, rows, {'nodes': len(g.nodes), 'edges': g.nedges, 'paths_total': total}
+
+
+def run_shards(ck, subcmd, rows, extra_args=None, shards=None, timeout=1800, tag='sh'):
+    """Run `mxh <subcmd> -in X -out Y` over rows in parallel processes.
+    Returns (results, crashed) where crashed is a list of (stderr_tail, unfinished_rows)
+    for shards whose process died."""
+    mxh = build_mxh()
+    shards = shards or min(NCPU, max(1, len(rows) // 50))
+    procs = []
+    for s in range(shards):
+        part = rows[s::shards]
+        if not part:
+            continue
+        inp = os.path.join(ck.scratch, '%s-in-%d.ndjson' % (tag, s))
+        outp = os.path.join(ck.scratch, '%s-out-%d.ndjson' % (tag, s))
+        write_ndjson(inp, part)
+        procs.append((subprocess.Popen([mxh, subcmd, '-in', inp, '-out', outp] + (extra_args or []),
+                                       stdout=subprocess.PIPE, stderr=subprocess.PIPE), outp, part))
+    res = []
+    crashed = []
+    for p, outp, part in procs:
+        try:
+            _, err = p.communicate(timeout=timeout)
+        except subprocess.TimeoutExpired:
+            p.kill()
+            _, err = p.communicate()
+            err = b'TIMEOUT ' + err
+        rows_out = []
+        if os.path.exists(outp):
+            for line in open(outp):
+                line = line.strip()
+                if line:
+                    try:
+                        rows_out.append(json.loads(line))
+                    except ValueError:
+                        pass
+        done = [x for x in rows_out if 'status' in x]
+        res += done
+        if p.returncode != 0:
+            fin = set(x['id'] for x in done)
+            started = set(x['start'] for x in rows_out if 'start' in x)
+            unfinished = [r for r in part if r['id'] not in fin]
+            inflight = [r for r in unfinished if r['id'] in started]
+            crashed.append({'stderr': err.decode('utf-8', 'replace')[-3000:], 'unfinished': unfinished, 'inflight': inflight})
+    return res, crashed
